@@ -69,6 +69,22 @@ fn expected(recv: Operand, name: &str, args: &[Operand]) -> Option<Result<String
         Operand::Bool(b) => prim::bool_method(b, name, &vals),
         Operand::Int(i) => {
             // independent recomputation of the arithmetic cells with i64 and explicit rules
+            // (the Feeny word spellings denote the same operations)
+            let spelled = name;
+            let name = match name {
+                "add" => "+",
+                "sub" => "-",
+                "mul" => "*",
+                "div" => "/",
+                "mod" => "%",
+                "lt" => "<",
+                "gt" => ">",
+                "le" => "<=",
+                "ge" => ">=",
+                "eq" => "==",
+                "neq" => "!=",
+                other => other,
+            };
             if vals.len() == 1 {
                 if let V::Int(b) = vals[0] {
                     let (a, b) = (i as i64, b as i64);
@@ -96,7 +112,7 @@ fn expected(recv: Operand, name: &str, args: &[Operand]) -> Option<Result<String
                         _ => Some(Err(())),
                     };
                     // the shared table must agree with the recomputation
-                    let shared = prim::int_method(i, name, &vals);
+                    let shared = prim::int_method(i, spelled, &vals);
                     let shared_s = match &shared {
                         Prim::Ok(V::Int(x)) => Some(Ok(x.to_string())),
                         Prim::Ok(V::Bool(x)) => Some(Ok(x.to_string())),
@@ -110,7 +126,7 @@ fn expected(recv: Operand, name: &str, args: &[Operand]) -> Option<Result<String
                     return r;
                 }
             }
-            prim::int_method(i, name, &vals)
+            prim::int_method(i, spelled, &vals)
         }
         Operand::Array | Operand::Object => return None,
     };
@@ -231,6 +247,17 @@ pub fn c09(ctx: &Ctx, rep: &mut Report) {
     for a in BOUNDARY.iter() {
         for b in BOUNDARY.iter() {
             for op in int_ops.iter() {
+                k += 1;
+                if ctx.mine(k) {
+                    c09_cell(rep, Operand::Int(*a), op, &[Operand::Int(*b)], k % 5 == 0);
+                }
+            }
+        }
+    }
+    // the same boundary table under the Feeny word spellings (method-call syntax)
+    for a in BOUNDARY.iter() {
+        for b in BOUNDARY.iter() {
+            for op in ["add", "sub", "mul", "div", "mod", "lt", "gt", "le", "ge", "eq", "neq"].iter() {
                 k += 1;
                 if ctx.mine(k) {
                     c09_cell(rep, Operand::Int(*a), op, &[Operand::Int(*b)], k % 5 == 0);
